@@ -48,9 +48,24 @@ def branch_order(eng, res, rule="R-BRANCH-ORDER"):
     clamp = [v for v in cand if isinstance(v, ast.Constant)]
     if any(c.value != 0 for c in clamp):
         stack = None
+    # the clamp to atom 0 applies exactly when the stack top is negative (a descriptor before the first atom): found by the
+    # mutation survey — a negated clamp condition binds every descriptor to atom 0
+    clamp_why = ""
+    if stack is not None and isinstance(a4, ast.Name):
+        from ..lits import lits, lits_text
+
+        for d in flow.reaching(a4.id, cfg.node_of(bc)):
+            if d.kind == "assign" and isinstance(d.value, ast.Constant) and d.stmt is not None:
+                g = cfg.guard_exprs(cfg.node_of(d.stmt))
+                inner = g[-1] if g else None
+                want = lits_text(f"{a4.id} < 0")
+                got = lits(inner[0], inner[1]) if inner is not None else frozenset()
+                if got != want:
+                    stack = None
+                    clamp_why = f"; the clamp to atom 0 is applied under {[src(inner[0]) + ('' if inner[1] else ' (negated)')] if inner else 'no condition'}, expected exactly `{a4.id} < 0`"
     ok = stack is not None
     res.ob(rule, tok, "binding-atom-from-stack-top", "the binding atom of a descriptor is the top of the branch stack (clamped at 0)", bc, ok,
-           f"4th argument: {src(t4)[:100] if t4 is not None else None} defined by {[src(v)[:40] for v in cand]}")
+           f"4th argument: {src(t4)[:100] if t4 is not None else None} defined by {[src(v)[:40] for v in cand]}" + clamp_why)
     if not ok:
         return
     # helper(s) that push / pop the stack
